@@ -1,5 +1,6 @@
 import NeatviVerif.Model.ExCmd
 import NeatviVerif.Props.C01
+import NeatviVerif.Lemmas.C02Ex
 /-!
 # C03  Writes never clobber foreign or newer files; failures surface and stay dirty
 -/
@@ -788,19 +789,19 @@ theorem writePath_frame (ed ed1 : Ed) (arg : Bytes) (r : Option Bytes) (h : writ
   · exact pathExpand_frame _ _ _ _ _ h
   · cases h; exact Frame.refl _
 
-/-- failures surface and the buffer stays dirty: when `lbuf_save` fails inside `:w`, the command
-    returns 1 with the error text shown, and the buffer table — the text, the undo state that
-    decides `modified`, and the recorded `mtime` of every buffer — is exactly what it was before
-    the command (no `lbuf_saved`) -/
-theorem ecWrite_failure (ed ed1 ed2 ed3 : Ed) (loc cmd arg path err : Bytes) (b e : Int) (cur : Buf)
+/-- failures surface and the buffer stays dirty, in the shape of the model: `ec_write` calls `lbuf_save`
+    with a path that may be empty (`lbufSaveP`); when that call fails inside `:w`, the command
+    returns 1 with the error text shown, and the buffer table is exactly what it was before the
+    command (no `lbuf_saved`).  No assumption on the path. -/
+theorem ecWrite_failureP (ed ed1 ed2 ed3 : Ed) (loc cmd arg path err : Bytes) (b e : Int) (cur : Buf)
     (hp : writePath ed arg = some (some path, ed1)) (hx : cmd.headD 0 ≠ 120)
     (hr : exRegion ed1 loc = some ((0, b, e), ed2)) (hc : ed2.cur = some cur) (hsh : path.headD 0 ≠ 33)
-    (hs : lbufSave ed2 cur.lb (writeRange ed2 loc b e).1.toNat (writeRange ed2 loc b e).2 path (hasBang cmd)
+    (hs : lbufSaveP ed2 cur.lb (writeRange ed2 loc b e).1.toNat (writeRange ed2 loc b e).2 path (hasBang cmd)
       (if cur.path == path then cur.mtime else 0) = some (some err, ed3)) :
     ecWrite ed loc cmd arg = some (1, ed3.show err) ∧ (ed3.show err).bufs = ed.bufs := by
   have f1 := writePath_frame _ _ _ _ hp
   have f2 := exRegion_frame _ _ _ _ hr
-  have f3 := lbufSave_bufs _ _ _ _ _ _ _ _ _ hs
+  have f3 := Lemmas.C02Ex.lbufSaveP_bufs _ _ _ _ _ _ _ _ _ hs
   refine ⟨?_, ?_⟩
   · unfold writePath at hp
     unfold ecWrite
@@ -814,6 +815,57 @@ theorem ecWrite_failure (ed ed1 ed2 ed3 : Ed) (loc cmd arg path err : Bytes) (b 
   · show ed3.bufs = ed.bufs
     rw [f3, f2.2, f1.2]
 
+/-- failures surface and the buffer stays dirty: when `lbuf_save` fails inside `:w` (to a file that
+    has a name), the command returns 1 with the error text shown, and the buffer table — the text, the
+    undo state that decides `modified`, and the recorded `mtime` of every buffer — is exactly what it
+    was before the command (no `lbuf_saved`) -/
+theorem ecWrite_failure (ed ed1 ed2 ed3 : Ed) (loc cmd arg path err : Bytes) (b e : Int) (cur : Buf)
+    (hp : writePath ed arg = some (some path, ed1)) (hx : cmd.headD 0 ≠ 120)
+    (hr : exRegion ed1 loc = some ((0, b, e), ed2)) (hc : ed2.cur = some cur) (hsh : path.headD 0 ≠ 33)
+    (hpne : path ≠ [])
+    (hs : lbufSave ed2 cur.lb (writeRange ed2 loc b e).1.toNat (writeRange ed2 loc b e).2 path (hasBang cmd)
+      (if cur.path == path then cur.mtime else 0) = some (some err, ed3)) :
+    ecWrite ed loc cmd arg = some (1, ed3.show err) ∧ (ed3.show err).bufs = ed.bufs :=
+  ecWrite_failureP ed ed1 ed2 ed3 loc cmd arg path err b e cur hp hx hr hc hsh
+    (by rw [Lemmas.C02Ex.lbufSaveP_of_ne hpne]; exact hs)
+
+/-- **`:w` in a buffer without a name fails**: when the path `ec_write` resolves is empty (no argument
+    and the current buffer has no file name), `open("")` fails; the command returns 1, shows
+    "write failed: cannot create file", and neither the buffer table nor the file system changes —
+    nothing is marked saved, the buffer stays dirty.  (Only a scheduled call is consumed.) -/
+theorem ecWrite_unnamed_fails (ed ed1 ed2 : Ed) (loc cmd arg : Bytes) (b e : Int) (cur : Buf)
+    (hp : writePath ed arg = some (some [], ed1)) (hx : cmd.headD 0 ≠ 120)
+    (hr : exRegion ed1 loc = some ((0, b, e), ed2)) (hc : ed2.cur = some cur) :
+    ∃ ed', ecWrite ed loc cmd arg = some (1, ed') ∧
+      ed' = (Lemmas.C02Ex.unnamedFail ed2).show (strOf "write failed: cannot create file") ∧
+      ed'.msg = ed2.msg ++ strOf "write failed: cannot create file" ++ [10] ∧
+      ed'.bufs = ed.bufs ∧ ed'.files = ed.files := by
+  have f1 := writePath_frame _ _ _ _ hp
+  have f2 := exRegion_frame _ _ _ _ hr
+  have h := ecWrite_failureP ed ed1 ed2 (Lemmas.C02Ex.unnamedFail ed2) loc cmd arg [] _ b e cur hp hx hr hc
+    (by decide) (Lemmas.C02Ex.lbufSaveP_empty _ _ _ _ _ _)
+  refine ⟨_, h.1, rfl, ?_, h.2, ?_⟩
+  · show (Lemmas.C02Ex.unnamedFail ed2).msg ++ _ ++ _ = _
+    have : (Lemmas.C02Ex.unnamedFail ed2).msg = ed2.msg := by
+      unfold Lemmas.C02Ex.unnamedFail; split <;> rfl
+    rw [this]
+  · show (Lemmas.C02Ex.unnamedFail ed2).files = ed.files
+    rw [Lemmas.C02Ex.unnamedFail_files, f2.1, f1.1]
+
+/-- the instance the property speaks about: plain `:w` (no argument) when the current buffer has no
+    file name -/
+theorem w_unnamed_fails (ed ed2 : Ed) (loc cmd : Bytes) (b e : Int) (c0 cur : Buf)
+    (h0 : ed.cur = some c0) (hpath : c0.path = []) (hx : cmd.headD 0 ≠ 120)
+    (hr : exRegion ed loc = some ((0, b, e), ed2)) (hc : ed2.cur = some cur) :
+    ∃ ed', ecWrite ed loc cmd [] = some (1, ed') ∧
+      ed'.msg = ed2.msg ++ strOf "write failed: cannot create file" ++ [10] ∧
+      ed'.bufs = ed.bufs ∧ ed'.files = ed.files := by
+  have hp : writePath ed [] = some (some [], ed) := by
+    unfold writePath
+    simp [h0, hpath]
+  obtain ⟨ed', h1, _, h3, h4, h5⟩ := ecWrite_unnamed_fails ed ed ed2 loc cmd [] b e cur hp hx hr hc
+  exact ⟨ed', h1, h3, h4, h5⟩
+
 /-- `:w path` without `!` never overwrites an existing file that is not the current buffer's own:
     the command fails with the file system and the buffers unchanged -/
 theorem ecWrite_foreign_refused (ed ed1 ed2 : Ed) (loc cmd arg path : Bytes) (b e : Int) (cur : Buf)
@@ -821,6 +873,11 @@ theorem ecWrite_foreign_refused (ed ed1 ed2 : Ed) (loc cmd arg path : Bytes) (b 
     (hr : exRegion ed1 loc = some ((0, b, e), ed2)) (hc : ed2.cur = some cur) (hsh : path.headD 0 ≠ 33)
     (hbang : hasBang cmd = false) (hforeign : cur.path ≠ path) (hex : ed.mtimeOf path ≥ 0) :
     ∃ ed', ecWrite ed loc cmd arg = some (1, ed') ∧ ed'.files = ed.files ∧ ed'.bufs = ed.bufs := by
+  by_cases hpne : path = []
+  · -- the empty path: `open("")` fails before anything is written
+    subst hpne
+    obtain ⟨ed', h1, _, _, h4, h5⟩ := ecWrite_unnamed_fails ed ed1 ed2 loc cmd arg b e cur hp hx hr hc
+    exact ⟨ed', h1, h5, h4⟩
   have f1 := writePath_frame _ _ _ _ hp
   have f2 := exRegion_frame _ _ _ _ hr
   have hex2 : ed2.mtimeOf path ≥ 0 := by
@@ -830,7 +887,7 @@ theorem ecWrite_foreign_refused (ed ed1 ed2 : Ed) (loc cmd arg path : Bytes) (b 
     simp [this]
   obtain ⟨msg, hs, _⟩ := foreign_refused ed2 cur.lb (writeRange ed2 loc b e).1.toNat (writeRange ed2 loc b e).2 path 0
     (Int.le_refl 0) hex2
-  have := ecWrite_failure ed ed1 ed2 ed2 loc cmd arg path msg b e cur hp hx hr hc hsh (by rw [hbang, hts]; exact hs)
+  have := ecWrite_failure ed ed1 ed2 ed2 loc cmd arg path msg b e cur hp hx hr hc hsh hpne (by rw [hbang, hts]; exact hs)
   exact ⟨_, this.1, by show ed2.files = ed.files; rw [f2.1, f1.1], this.2⟩
 
 /-! ### non-vacuity -/
@@ -892,5 +949,32 @@ example : ((ecWrite { exEd2 with faults := [(1, 49), (2, 101)] } [] (strOf "w") 
 -- `:w g` onto an existing foreign file is refused
 example : (ecWrite exEd2 [] (strOf "w") [103]).map exView2 =
     some (1, strOf "write failed: file exists\n", exEd2.files, some 1500) := by decide +kernel
+
+/-- a buffer without a name (never read from, never written to a file), two lines of text -/
+def exEd3 : Ed := { bufs := [some { path := [], lb := exLb }] ++ List.replicate 15 none,
+                    files := [⟨[102], [120, 10], 1500⟩, ⟨[103], [], 0⟩], clock := 2000 }
+
+-- the hypotheses of `ecWrite_unnamed_fails` (and of `w_unnamed_fails`) are met by `:w` on that buffer
+example : ∃ ed1 ed2 b e cur, writePath exEd3 [] = some (some [], ed1) ∧ (strOf "w").headD 0 ≠ 120 ∧
+    exRegion ed1 [] = some ((0, b, e), ed2) ∧ ed2.cur = some cur :=
+  ⟨exEd3, exEd3, 0, 1, { path := [], lb := exLb }, rfl, by decide +kernel, rfl, rfl⟩
+example : ∃ c0 ed2 b e cur, exEd3.cur = some c0 ∧ c0.path = [] ∧ (strOf "w").headD 0 ≠ 120 ∧
+    exRegion exEd3 [] = some ((0, b, e), ed2) ∧ ed2.cur = some cur :=
+  ⟨{ path := [], lb := exLb }, exEd3, 0, 1, { path := [], lb := exLb }, rfl, rfl, by decide +kernel, rfl, rfl⟩
+-- `:w` in a buffer without a name: rc 1, the message, no file touched, nothing recorded as saved
+example : (ecWrite exEd3 [] (strOf "w") []).map exView2 =
+    some (1, strOf "write failed: cannot create file\n", exEd3.files, some (-1)) := by decide +kernel
+-- ... and the buffer is as dirty as it was (the table is untouched)
+example : ((ecWrite exEd3 [] (strOf "w") []).map (fun r => r.2.bufs.map (·.map (fun b => (b.path, b.lb.lines, (modified b.lb).1))))) =
+    some (exEd3.bufs.map (·.map (fun b => (b.path, b.lb.lines, (modified b.lb).1)))) := by decide +kernel
+-- `:w!` does not help either, and a scheduled `open` error changes nothing visible
+example : (ecWrite { exEd3 with faults := [(0, 101)] } [] (strOf "w!") []).map exView2 =
+    some (1, strOf "write failed: cannot create file\n", exEd3.files, some (-1)) := by decide +kernel
+-- `:w f` from the unnamed buffer still works and gives the buffer its name
+example : (ecWrite exEd3 [] (strOf "w!") [102]).map exView2 =
+    some (0, strOf "\"f\"  [=2]  [w]\n", [⟨[102], [97, 10, 98, 99, 10], 2002⟩, ⟨[103], [], 0⟩], some 2002) := by
+  decide +kernel
+example : (ecWrite exEd3 [] (strOf "w!") [102]).bind (fun r => r.2.cur.map (·.path)) = some [102] := by
+  decide +kernel
 
 end Neatvi.Props.C03
